@@ -7,35 +7,37 @@ Open Scope Z_scope.
 
 Record tasksol := {
   ts_id : nat; ts_start : Z; ts_end : Z; ts_dur : Z; ts_sched : bool;
-  ts_assigned : list string;                      (* assigned_resources, in order of discovery *)
+  ts_assigned : list resobj;                      (* assigned_resources (by report key), in order of discovery *)
   ts_times : option (Z * Z * Z) }.                (* start_time, end_time, duration_time in microseconds *)
-Record ressol := { rs_name : string; rs_assignments : list (nat * Z * Z) }.
+Record ressol := { rs_name : resobj; rs_assignments : list (nat * Z * Z) }.    (* rs_name: the key the report is filed under *)
 Record bufsol := { bs_id : nat; bs_levels : list Z; bs_times : list Z }.
 Record solution := {
   so_horizon : Z; so_tasks : list tasksol; so_resources : list ressol;
   so_buffers : list bufsol; so_indicators : list (string * Z) }.
 
-(* the name under which a resource is reported: name.split("_CumulativeWorker_")[0] *)
-Definition wref_report_name (w : wref) : string :=
-  match w with WPlain _ => show_wref w | WUnit c _ => ("C" ++ show_nat c)%string end.
-Definition rref_report_name (r : rref) : string :=
-  match r with RW w => wref_report_name w | RC c => ("C" ++ show_nat c)%string end.
+(* the key under which a resource is reported: name.split("_CumulativeWorker_")[0] -- a unit worker is reported under
+   its cumulative worker.  Keys are structural (the injectivity of names is built into the model); they are printed
+   with resobj_name. *)
+Definition wref_key (w : wref) : resobj :=
+  match w with WPlain _ => ResW w | WUnit c _ => ResC c end.
+Definition rref_key (r : rref) : resobj :=
+  match r with RW w => wref_key w | RC c => ResC c end.
 Definition is_unit (w : wref) : bool := match w with WUnit _ _ => true | _ => false end.
-
-Definition mem_str (s : string) (l : list string) : bool := existsb (String.eqb s) l.
+Definition resobj_beq (a b : resobj) : bool :=
+  match a, b with ResW x, ResW y => wref_beq x y | ResC x, ResC y => Nat.eqb x y | _, _ => false end.
+Definition mem_key (k : resobj) (l : list resobj) : bool := existsb (resobj_beq k) l.
 
 Definition task_duration (e : env) (t : tinfo) : Z :=
   match ti_kind t with KFixed d => d | KZero => 0 | KVar _ _ _ => iv e (VDur (ti_id t)) end.
 Definition task_scheduled (e : env) (t : tinfo) : bool :=
   if ti_opt t then bv e (BSched (ti_id t)) else true.
 
-Definition assigned_resources (st : pstate) (e : env) (t : tinfo) : list string :=
+Definition assigned_resources (st : pstate) (e : env) (t : tinfo) : list resobj :=
   fold_left (fun acc r =>
       match al_get Nat.eqb (busy_of st r) (ti_id t) with
       | Some m =>
-          if task_scheduled e t && (iv e (VBusyS r (ti_id t) m) >=? 0) && negb (mem_str (show_rref r) acc)
-             && negb (mem_str (rref_report_name r) acc)
-          then acc ++ [rref_report_name r] else acc
+          if task_scheduled e t && (iv e (VBusyS r (ti_id t) m) >=? 0) && negb (mem_key (rref_key r) acc)
+          then acc ++ [rref_key r] else acc
       | None => acc
       end) (reqs_of st (ti_id t)) [].
 
@@ -66,13 +68,13 @@ Definition worker_assignments (st : pstate) (e : env) (w : wref) (acc : list (na
 Definition resource_solutions (st : pstate) (e : env) : list ressol :=
   fold_left (fun acc wr =>
       let w := w_ref wr in
-      let name := wref_report_name w in
-      if is_unit w && existsb (fun r => String.eqb (rs_name r) name) acc then
-        map (fun r => if String.eqb (rs_name r) name
+      let name := wref_key w in
+      if is_unit w && existsb (fun r => resobj_beq (rs_name r) name) acc then
+        map (fun r => if resobj_beq (rs_name r) name
                       then {| rs_name := name; rs_assignments := worker_assignments st e w (rs_assignments r) |} else r) acc
-      else if negb (is_unit w) && existsb (fun r => String.eqb (rs_name r) name) acc then
+      else if negb (is_unit w) && existsb (fun r => resobj_beq (rs_name r) name) acc then
         (* add_resource_solution: dict assignment replaces an entry of the same name in place *)
-        map (fun r => if String.eqb (rs_name r) name
+        map (fun r => if resobj_beq (rs_name r) name
                       then {| rs_name := name; rs_assignments := worker_assignments st e w [] |} else r) acc
       else acc ++ [{| rs_name := name; rs_assignments := worker_assignments st e w [] |}])
     (ps_workers st) [].
@@ -119,11 +121,11 @@ Definition show_bool (b : bool) : string := if b then "true" else "false".
 Definition solution_report (s : solution) : list string :=
   ("HORIZON " ++ show_Z (so_horizon s))
   :: map (fun t => "TASK " ++ show_task (ts_id t) ++ " " ++ show_Z (ts_start t) ++ " " ++ show_Z (ts_end t) ++ " "
-                    ++ show_Z (ts_dur t) ++ " " ++ show_bool (ts_sched t) ++ " [" ++ join "," (ts_assigned t) ++ "]"
+                    ++ show_Z (ts_dur t) ++ " " ++ show_bool (ts_sched t) ++ " [" ++ join "," (map resobj_name (ts_assigned t)) ++ "]"
                     ++ match ts_times t with
                        | Some (a, b, d) => " " ++ show_Z a ++ " " ++ show_Z b ++ " " ++ show_Z d
                        | None => "" end) (so_tasks s)
-  ++ map (fun r => "RES " ++ rs_name r ++ " "
+  ++ map (fun r => "RES " ++ resobj_name (rs_name r) ++ " "
                    ++ join ";" (map (fun '(t, a, b) => show_task t ++ "," ++ show_Z a ++ "," ++ show_Z b) (rs_assignments r)))
          (so_resources s)
   ++ map (fun b => "BUF B" ++ show_nat (bs_id b) ++ " " ++ show_zs (bs_levels b) ++ " | " ++ show_zs (bs_times b)) (so_buffers s)
